@@ -272,6 +272,18 @@ static void cq_dump_hex(chunkqueue * const cq) {
     if (!any) fputc('-', stdout);
 }
 
+/* every byte queued, whether it sits in memory chunks or in temporary files */
+static void cq_dump_all(chunkqueue * const cq) {
+    const off_t len = chunkqueue_length(cq);
+    if (len <= 0) { fputc('-', stdout); return; }
+    char * const buf = malloc((size_t)len);
+    char *p = buf;
+    uint32_t l = (uint32_t)len;
+    if (chunkqueue_peek_data(cq, &p, &l, errh, 0) < 0 || (off_t)l != len) fputs("<peek-failed>", stdout);
+    else ltv_puthex(p, l);
+    free(buf);
+}
+
 static void op_prep(void) {
     if (ltv_ntok < 9) { puts("bad-op"); return; }
     request_st * const r = &con.request;
@@ -334,7 +346,7 @@ static void op_prep(void) {
     }
     printf("ka=%d fin=%d ch=%d hlen=%u wire=", r->keep_alive > 0 ? 1 : 0, r->resp_body_finished ? 1 : 0,
            r->resp_send_chunked ? 1 : 0, r->resp_header_len);
-    cq_dump_hex(&r->write_queue);
+    cq_dump_all(&r->write_queue);
     fputc('\n', stdout);
   done:
     r->resp_htags = 0;
@@ -412,6 +424,7 @@ int main(void) {
     memset(&con, 0, sizeof(con));
     srv.errh = errh;
     srv.tmp_buf = buffer_init();
+    buffer_string_prepare_copy(srv.tmp_buf, 4095);   /*(the server allocates it at startup)*/
     srv.plugin_slots = slots;
     con.srv = &srv;
     con.plugin_slots = slots;
